@@ -33,6 +33,7 @@ TARGETS = {
     ("utype/parser/base.py", "BaseParser.resolve_forward_refs"): "rfr",
     ("utype/parser/base.py", "BaseParser._resolve_forward_refs"): "rfr",
     ("utype/parser/func.py", "FunctionParser.resolve_forward_refs"): "frf",
+    ("utype/parser/func.py", "FunctionParser.positional_fields"): "pf",      # lazily built index (cached_property body)
     ("utype/parser/cls.py", "ClassParser.resolve_forward_refs"): "crf",      # walks the base classes' parsers first
     ("utype/parser/field.py", "ParserField.resolve_forward_refs"): "fld",
     ("utype/parser/field.py", "ParserField.parse_value"): "pv",
@@ -75,6 +76,15 @@ NAMES = {
         (r"^self\.addition_type, r = resolve_forward_type\(self\.addition_type\)", "addn"),
         (r"^ref\.__forward_evaluated__ = False", "clr1"),
         (r"^ref\.__forward_value__ = None", "clr2"),
+    ],
+    "pf": [
+        (r"^fields = \{\}", "new"),
+        (r"^for index, key in self\.pos_key_map\.items\(\):", "for"),
+        (r"^field = self\.get_field\(key\)", "get"),
+        (r"^if not field:", "chk"),
+        (r"^continue", "cont"),
+        (r"^fields\[index\] = field", "put"),
+        (r"^return fields", "ret"),
     ],
     "frf": [
         (r"^if self\.position_type:", "pos?"),
@@ -135,6 +145,123 @@ NAMES = {
 }
 
 
+# ---- lazily initialised / runtime-written parser state, found in the source (ast, nothing imported) -------------
+LAZY_FILES = ["utype/parser/func.py", "utype/parser/base.py", "utype/parser/cls.py", "utype/parser/field.py"]
+# methods that run while a declaration is being built (single-threaded by nature: the object is not shared yet)
+CONSTRUCTION_ROOTS = ["__init__", "__init_subclass__", "__set_name__", "make_init"]
+# the functions of the thread model that rewrite parser state at the first use (all in TARGETS, all modelled)
+RUNTIME_WRITERS = {
+    ("utype/parser/base.py", "BaseParser._resolve_forward_refs"),
+    ("utype/parser/base.py", "BaseParser.resolve_forward_refs"),
+    ("utype/parser/func.py", "FunctionParser.resolve_forward_refs"),
+    ("utype/parser/field.py", "ParserField.resolve_forward_refs"),
+}
+MUTATORS = {"append", "add", "update", "pop", "popitem", "setdefault", "clear", "insert", "extend", "remove", "discard"}
+
+
+def scan_lazy(repo):
+    """-> (writers, cached): {(file, 'Cls.meth'): [(attr, line)…]} of methods outside the construction call graph that
+    store to / mutate `self.<attr>`, and [(file, 'Cls.meth')] of cached_property methods"""
+    import ast
+    methods: dict = {}
+    for f in LAZY_FILES:
+        try:
+            tree = ast.parse((repo / f).read_text())
+        except Exception:
+            continue
+        for cls in [n for n in tree.body if isinstance(n, ast.ClassDef)]:
+            for n in cls.body:
+                if isinstance(n, (ast.FunctionDef, ast.AsyncFunctionDef)):
+                    methods.setdefault(n.name, []).append((f, cls.name, n))
+
+    def refs(node):
+        # methods called (x.m(...)) and properties read on self/cls
+        # (closures defined in the method run later, at call time: not followed)
+        out = set()
+        todo = list(ast.iter_child_nodes(node))
+        while todo:
+            n = todo.pop()
+            if isinstance(n, (ast.FunctionDef, ast.AsyncFunctionDef, ast.Lambda)):
+                continue
+            if isinstance(n, ast.Call) and isinstance(n.func, ast.Attribute):
+                out.add(n.func.attr)
+            if isinstance(n, ast.Attribute) and isinstance(n.value, ast.Name) and n.value.id in ("self", "cls"):
+                out.add(n.attr)
+            todo += list(ast.iter_child_nodes(n))
+        return out
+
+    reach, todo = set(), list(CONSTRUCTION_ROOTS)
+    while todo:
+        m = todo.pop()
+        if m in reach or m not in methods:
+            continue
+        reach.add(m)
+        for _, _, node in methods[m]:
+            todo += list(refs(node))
+
+    def is_self_attr(x):
+        return isinstance(x, ast.Attribute) and isinstance(x.value, ast.Name) and x.value.id == "self"
+
+    def writes(node):
+        out = []
+        for n in ast.walk(node):
+            tgts = []
+            if isinstance(n, ast.Assign):
+                tgts = n.targets
+            elif isinstance(n, (ast.AugAssign, ast.AnnAssign)):
+                tgts = [n.target]
+            for t in tgts:
+                for x in ast.walk(t):
+                    if is_self_attr(x) and isinstance(x.ctx, ast.Store):
+                        out.append((x.attr, x.lineno))
+                    if isinstance(x, ast.Subscript) and isinstance(x.ctx, ast.Store) and is_self_attr(x.value):
+                        out.append((x.value.attr + "[]", x.lineno))
+            if (isinstance(n, ast.Call) and isinstance(n.func, ast.Attribute) and n.func.attr in MUTATORS
+                    and is_self_attr(n.func.value)):
+                out.append((n.func.value.attr + "." + n.func.attr, n.lineno))
+        return out
+
+    writers, cached = {}, []
+    for name, lst in methods.items():
+        for f, c, node in lst:
+            decos = []
+            for d in node.decorator_list:
+                try:
+                    decos.append(ast.unparse(d))
+                except Exception:
+                    pass
+            if any("cached_property" in d for d in decos):
+                cached.append((f, f"{c}.{name}"))
+                continue
+            w = writes(node)
+            if w and name not in reach:
+                writers[(f, f"{c}.{name}")] = w
+    return writers, cached
+
+
+_DISCOVERED = None
+
+
+def discovered():
+    """traced on top of TARGETS: runtime writers of parser state that TARGETS does not name (tag `lazy`) and the bodies
+    of cached_property attributes (tag `cp`); every line of them is a scheduling point"""
+    global _DISCOVERED
+    if _DISCOVERED is None:
+        d = {}
+        try:
+            writers, cached = scan_lazy(common.REPO)
+            for k in writers:
+                if k not in RUNTIME_WRITERS:
+                    d[k] = "lazy"
+            for k in cached:
+                if k not in TARGETS:
+                    d[k] = "cp"
+        except Exception:
+            pass
+        _DISCOVERED = d
+    return _DISCOVERED
+
+
 class _Abort(BaseException):
     pass
 
@@ -163,7 +290,7 @@ def _code_info(code):
         return ci
     ci = None
     fn = code.co_filename
-    for (suf, qn), tag in TARGETS.items():
+    for (suf, qn), tag in [x for x in discovered().items() if x[1] == "lazy"] + list(TARGETS.items()) + list(discovered().items()):
         if fn.endswith(suf) and getattr(code, "co_qualname", code.co_name) == qn:
             ci = _CodeInfo(tag, code)
             break
@@ -182,6 +309,15 @@ def _label(ci, code, lineno):
         return r
     raw = ci.text(lineno)
     txt = raw.split("#")[0].strip()
+    if ci.tag in ("lazy", "cp"):
+        r = (f"{ci.tag}:{getattr(code, 'co_qualname', code.co_name)}+{lineno - ci.start}", True, LOCK_RE.match(raw))
+        _LABELS[k] = r
+        return r
+    if ci.tag == "pf":          # every line of the getter body is a scheduling point
+        lab = next((f"pf:{nm}" for pat, nm in NAMES["pf"] if re.match(pat, txt)), f"pf:?{txt[:60]}")
+        r = (lab, True, LOCK_RE.match(raw))
+        _LABELS[k] = r
+        return r
     vis = bool(SHARED.search(raw.split("#")[0]))
     lab = None
     if vis:
@@ -427,7 +563,17 @@ def canon(v):
 
 def do_call(m, prog, call):
     try:
-        r = m.A(**call_input(prog, call))
+        kw = call_input(prog, call)
+        if call.get("pos") and prog["kind"] == "fn":
+            # positional call: the first keywords of the call go by position (needs the parser's lazily built index)
+            npos = min(call["pos"], len(call["use"])) if not isinstance(call["pos"], bool) else len(call["use"])
+            names = [f"f{i}" for i in call["use"]]
+            if call["use"] == list(range(len(call["use"]))):
+                r = m.A(*[kw[n] for n in names[:npos]], **{n: kw[n] for n in names[npos:]})
+            else:
+                r = m.A(**kw)
+        else:
+            r = m.A(**kw)
         return {"ok": canon(r)}
     except _Abort:
         raise
@@ -717,6 +863,7 @@ def impl_apf(case):
 
 FWD_POINTS = ["rfr", "frf", "crf", "fld", "rft", "pv", "tc", "ta", "lrf", "rrf"]
 ALL_POINTS = sorted(set(TARGETS.values()))
+LAZY_POINTS = FWD_POINTS + ["lazy", "cp", "pf"]        # + every line of lazily initialised parser attributes
 MODELLED_ANN = {"ref", "slist", "plain"}
 INF = 10 ** 6
 
@@ -726,6 +873,8 @@ def modelled(case) -> bool:
         return case.get("mode", "vis") == "vis" and sorted(case.get("points") or ["res", "reg"]) == ["reg", "res"]
     if case.get("op", "fwd") != "fwd" or case.get("mode", "vis") != "vis":
         return False
+    if sorted(case.get("points") or []) == sorted(LAZY_POINTS):
+        return case["prog"]["kind"] == "fn"         # replayed on the lazy-attribute model (Utv.C20.Lazy)
     if sorted(case.get("points") or []) != sorted(FWD_POINTS):
         return False
     return all(f["ann"] in MODELLED_ANN for f in case["prog"]["fields"]) and not case["prog"].get("ret") and not case["prog"].get("chain") and not case["prog"].get("inherit")
@@ -808,7 +957,7 @@ def gen_prog(rng, small=False):
             if rng.random() < 0.12:
                 to = "U"
         fields.append({"ann": ann, "to": to})
-    if not any(f["ann"] != "plain" for f in fields):
+    if not any(f["ann"] != "plain" for f in fields) and not (kind == "fn" and rng.random() < 0.5):
         fields[0] = {"ann": "ref", "to": "B"}
     prog = {"kind": kind, "local": local, "fields": fields}
     if rng.random() < 0.15:
@@ -828,7 +977,13 @@ def gen_threads(rng, prog, n):
         for _ in range(rng.choice([1, 1, 2])):
             use = sorted(rng.sample(range(nf), rng.randint(1, nf)))
             bad = rng.choice(use) if rng.random() < 0.25 else None
-            calls.append({"use": use, "bad": bad} if bad is not None else {"use": use})
+            c = {"use": use, "bad": bad} if bad is not None else {"use": use}
+            if prog["kind"] == "fn" and rng.random() < 0.5:
+                c["use"] = list(range(rng.randint(1, nf)))          # positional arguments are a prefix
+                if c.get("bad") is not None and c["bad"] not in c["use"]:
+                    c.pop("bad")
+                c["pos"] = True
+            calls.append(c)
         ths.append(calls)
     return ths
 
@@ -887,6 +1042,14 @@ BASE_PROGS = [
 ]
 
 
+LAZY_PROGS = [
+    # first calls of decorated functions with positional arguments (the positional index is built lazily)
+    {"kind": "fn", "local": False, "fields": [{"ann": "plain", "to": ""}, {"ann": "plain", "to": ""}, {"ann": "plain", "to": ""}]},
+    {"kind": "fn", "local": False, "fields": [{"ann": "ref", "to": "B"}, {"ann": "plain", "to": ""}]},
+    {"kind": "fn", "local": True, "fields": [{"ann": "plain", "to": ""}, {"ann": "ref", "to": "B"}, {"ann": "plain", "to": ""}]},
+]
+
+
 def full_use(prog):
     return {"use": list(range(len(prog["fields"])))}
 
@@ -917,12 +1080,12 @@ class C20(Check):
     def cases(self, tier, rng, n):
         out = []
         # (a) exhaustive <= 2 preemptions, 2 threads, on the base declarations (each thread: one full call)
-        nbase = {"quick": 6, "thorough": len(BASE_PROGS), "search": 7}[tier]
+        nbase = {"quick": 5, "thorough": len(BASE_PROGS), "search": 7}[tier]
         items = []
         for p in BASE_PROGS[:nbase]:
             items.append({"op": "fwd", "prog": p, "threads": [[full_use(p)], [full_use(p)]], "points": FWD_POINTS, "mode": "vis"})
         # (b) random declarations / calls, 2-3 threads
-        nrand = {"quick": 40, "thorough": 150, "search": 40}[tier]
+        nrand = {"quick": 30, "thorough": 150, "search": 40}[tier]
         for _ in range(nrand):
             p = gen_prog(rng)
             nt = 2 if (tier == "quick" or rng.random() < 0.5) else 3
@@ -936,6 +1099,21 @@ class C20(Check):
             first3 = len(items)
             for p in (BASE_PROGS[1], BASE_PROGS[2]):
                 items.append({"op": "fwd", "prog": p, "threads": [[full_use(p)]] * 3, "points": FWD_POINTS, "mode": "vis"})
+        # (b') first calls of functions with positional arguments, every line of the lazily built attributes schedulable
+        first_lazy = len(items)
+        nlazy = {"quick": 2, "thorough": 3, "search": 3}[tier]
+        for p in LAZY_PROGS[:nlazy]:
+            c = dict(full_use(p), pos=True)
+            items.append({"op": "fwd", "prog": p, "threads": [[c], [c]], "points": LAZY_POINTS, "mode": "vis"})
+        for i in range({"quick": 4, "thorough": 30, "search": 10}[tier]):
+            p = gen_prog(rng)
+            p["kind"] = "fn"
+            p.pop("inherit", None)
+            if len(p["fields"]) < 2:
+                p["fields"].append({"ann": "plain", "to": ""})
+            nt = 2 if (tier == "quick" or rng.random() < 0.5) else 3
+            items.append({"op": "fwd", "prog": p, "threads": gen_threads(rng, p, nt), "points": LAZY_POINTS, "mode": "vis"})
+        end_lazy = len(items)
         # (c) lookups in a shared registry (a registration now and then: known finding)
         nreg = {"quick": 25, "thorough": 120, "search": 30}[tier]
         first_reg = len(items)
@@ -953,7 +1131,14 @@ class C20(Check):
             if not L:
                 L = [40] * len(it["threads"])
             nt = len(it["threads"])
-            if first3 is not None and first3 <= idx < first3 + 2:
+            if first_lazy <= idx < first_lazy + nlazy:
+                scheds = schedules_2(L, 2)
+                if tier == "quick" and len(scheds) > 600:
+                    one = [x for x in scheds if len(x) <= 2]
+                    two = [x for x in scheds if len(x) > 2]
+                    rng.shuffle(two)
+                    scheds = one + two[:600 - len(one)]
+            elif first3 is not None and first3 <= idx < first3 + 2:
                 scheds = schedules_n(L, 3, 2)
             elif idx >= first_apf:
                 scheds = schedules_2(L, 2) if nt == 2 else [random_schedule(rng, L, nt, rng.randint(1, 3)) for _ in range(100)]
@@ -1004,6 +1189,8 @@ class C20(Check):
                     "init": [norm(r) for r in case.get("init", [])], "nclasses": NCLS,
                     "threads": [[({"reg": norm(op["reg"])} if "reg" in op else op) for op in ops] for ops in case["threads"]],
                     "trace": io["trace"]}
+        if sorted(case.get("points") or []) == sorted(LAZY_POINTS):
+            return {"op": "lazy", "n": len(case["prog"]["fields"]), "nthreads": len(case["threads"]), "trace": io["trace"]}
         return {"op": "fwd", "world": world_of(case["prog"]),
                 "threads": [[[[i, c.get("bad") == i] for i in c["use"]] for c in calls] for calls in case["threads"]],
                 "trace": io["trace"], "legacy": bool(os.environ.get("C20_LEGACY"))}
@@ -1035,6 +1222,18 @@ class C20(Check):
             k = mo["at"]
             return (f"control flow differs at event #{k}: the code executed {io['trace'][k]} where the model "
                     f"expects thread {io['trace'][k][0]} at {mo['model_label']}")
+        if "builds" in mo:
+            if not mo["follows"]:
+                k = mo["at"]
+                return (f"lazy attribute: control flow differs at event #{k}: the code executed {io['trace'][k]} where the "
+                        f"model expects thread {io['trace'][k][0]} at {mo['model_label']}")
+            if any(p != "<out>" for p in mo["pcs"]):
+                return f"lazy attribute: a getter body did not finish: {mo['pcs']}"
+            positional = any(c.get("pos") for calls in case["threads"] for c in calls)
+            n = len(case["prog"]["fields"])
+            if positional and mo["slot"] != list(range(n)):
+                return f"lazy attribute: positional calls were made but the model has no complete index: {mo['slot']}"
+            return None
         if case.get("op") == "registry":
             got = [[o for o in (outs or []) if "reg" not in o] for outs in io["outs"]]
             if mo["outs"] != got:
@@ -1130,7 +1329,9 @@ class C20(Check):
             counts = [sum(1 for t, _ in tr if t == k) for k in range(len(case["threads"]))]
             pre = self._preemptions(tr, counts)
         return (f"{p['kind']}/{'local' if p.get('local') else 'global'}/{anns}/threads={len(case['threads'])}"
-                f"/preempt={pre}/{'model' if modelled(case) else 'spec-only'}")
+                f"/preempt={pre}/{'model' if modelled(case) else 'spec-only'}"
+                + ("/lazy-points" if "lazy" in (case.get("points") or []) else "")
+                + ("/positional" if any(c.get("pos") for calls in case["threads"] for c in calls) else ""))
 
     def neighbours(self, case, rng):
         out = []
@@ -1152,9 +1353,10 @@ class C20(Check):
         "rfr": ["chk", "lock", "list", "get", "eval", "isev", "rdval", "wr", "popd", "addn", "clr1", "clr2"],
         "frf": ["pos?", "ret?"], "fld": ["ty?", "ty", "oty?"], "rft": ["isev", "rdval"], "pv": ["rdty", "errty"],
         "tc": ["isev", "rdval"], "res": ["cget", "gen", "iter", "lock", "gchk", "cset"], "reg": ["lock", "clr", "copy", "pub", "gen"],
-        "apf": ["chk", "get", "set"],
+        "apf": ["chk", "get", "set"], "pf": ["new", "for", "get", "chk", "put", "ret"],
     }
-    ALL_NAMED = ("rfr", "frf", "fld", "rft", "res", "reg", "apf")     # no unnamed shared-state line allowed here
+    ALL_NAMED = ("rfr", "frf", "fld", "rft", "res", "reg", "apf")
+    ALL_LINES = ("pf",)          # every line of these is a scheduling point and must be one the model knows     # no unnamed shared-state line allowed here
 
     def extra_static(self, tier):
         """read the traced functions from $UTYPE_REPO with `ast` (nothing imported): every label the models use
@@ -1194,15 +1396,34 @@ class C20(Check):
                 if ln in inner:
                     continue
                 raw = lines[ln - 1].split("#")[0]
-                if not SHARED.search(raw) or raw.strip().startswith("global "):
+                every = tag in self.ALL_LINES
+                if every:
+                    if not raw.strip() or raw.strip().startswith(("@", "def ", '"""', "'")):
+                        continue
+                elif not SHARED.search(raw) or raw.strip().startswith("global "):
                     continue
                 txt = raw.strip()
                 name = next((nm for pat, nm in NAMES.get(tag, []) if re.match(pat, txt)), None)
                 if name is None:
-                    if tag in self.ALL_NAMED:
+                    if tag in self.ALL_NAMED or tag in self.ALL_LINES:
                         broken.append(f"static: {suf}:{ln} `{txt[:70]}` touches shared state but is not a line the model knows ({tag})")
                 else:
                     found.setdefault(tag, set()).add(name)
+        # lazily initialised parser state: only functools.cached_property (the fully built value is published in one
+        # store) or functions the scheduler traces (TARGETS) may write parser attributes after construction
+        try:
+            writers, cached = scan_lazy(common.REPO)
+            for (f, qn), w in sorted(writers.items()):
+                if (f, qn) not in RUNTIME_WRITERS:
+                    attrs = ", ".join(sorted({a for a, _ in w}))
+                    broken.append(f"static: {f}:{w[0][1]} {qn} writes parser state ({attrs}) outside construction and is not "
+                                  f"a cached_property nor a function the thread model knows (hand-written lazy initialisation)")
+            ds = (common.REPO / "utype/utils/datastructures.py").read_text()
+            m = re.search(r"try:\s*\n\s*from functools import cached_property", ds)
+            if cached and not m:
+                broken.append("static: utype.utils.datastructures.cached_property is not functools.cached_property any more")
+        except Exception as e:
+            broken.append(f"static: lazy-attribute scan failed: {e}")
         for tag, names in self.REQUIRED.items():
             if tag not in seen_fn:
                 broken.append(f"static: no traced function for `{tag}` found in {common.REPO}")
